@@ -103,6 +103,7 @@ type loopSpec struct {
 	Place  [][2]int64  `json:"place"` // (nonce, block)
 	Inputs []loopInput `json:"inputs"`
 	Start  int         `json:"start"` // index of the first input this child plays
+	SlowMs int         `json:"slowms"` // how long a "slow" log query is held back
 }
 
 func placeLine(p [][2]int64) string {
@@ -133,7 +134,8 @@ type childState struct {
 	db       *leveldb.DB
 	journal  *int64 // number of journal writes seen by the observing storage wrapper
 	lastIO   int64
-	putsIter int // cursor writes observed since the last log query
+	putsIter int // cursor writes observed since the header of this iteration
+	stash    []string
 	bank     common.Address
 	registry common.Address
 	events   chan string        // loop observations: "getlogs lo hi", "account", "broadcast n1,n2", "log <message>"
@@ -357,37 +359,67 @@ func (k chanCore) Sync() error { return nil }
 
 const childMnemonic = "abandon abandon abandon abandon abandon abandon abandon abandon abandon abandon abandon about"
 
-func (c *childState) expect(prefix string, timeout time.Duration) string {
+// next returns the next observable of the loop (one that arrived while a log query was being held back first)
+func (c *childState) next(timeout time.Duration) (string, bool) {
+	if len(c.stash) > 0 {
+		ev := c.stash[0]
+		c.stash = c.stash[1:]
+		return ev, true
+	}
 	select {
 	case ev := <-c.events:
-		c.checkPut() // a cursor write that happened before this observable is recorded before it
-		if !strings.HasPrefix(ev, prefix) {
-			c.record("BAD expected " + prefix + " got " + ev)
-			os.Exit(4)
-		}
-		return ev
+		return ev, true
 	case <-time.After(timeout):
+		return "", false
+	}
+}
+
+// hold keeps a log query unanswered for d, or until the loop has visibly moved on without the answer
+// (a LevelDB write, or any other observable).  Returns true if the loop moved on.
+func (c *childState) hold(d time.Duration) bool {
+	deadline := time.Now().Add(d)
+	for time.Now().Before(deadline) {
+		if atomic.LoadInt64(c.journal) != c.lastIO {
+			return true
+		}
+		select {
+		case ev := <-c.events:
+			c.stash = append(c.stash, ev)
+			return true
+		case <-time.After(100 * time.Millisecond):
+		}
+	}
+	return false
+}
+
+func (c *childState) expect(prefix string, timeout time.Duration) string {
+	ev, ok := c.next(timeout)
+	if !ok {
 		c.record("BAD timeout waiting for " + prefix)
 		os.Exit(4)
 	}
-	return ""
+	c.checkPut() // a cursor write that happened before this observable is recorded before it
+	if !strings.HasPrefix(ev, prefix) {
+		c.record("BAD expected " + prefix + " got " + ev)
+		os.Exit(4)
+	}
+	return ev
 }
 
 func (c *childState) expectAny(timeout time.Duration, prefixes ...string) string {
-	select {
-	case ev := <-c.events:
-		c.checkPut()
-		for _, p := range prefixes {
-			if strings.HasPrefix(ev, p) {
-				return ev
-			}
-		}
-		c.record("BAD expected one of " + strings.Join(prefixes, "|") + " got " + ev)
-		os.Exit(4)
-	case <-time.After(timeout):
+	ev, ok := c.next(timeout)
+	if !ok {
 		c.record("BAD timeout waiting for " + strings.Join(prefixes, "|"))
 		os.Exit(4)
 	}
+	c.checkPut()
+	for _, p := range prefixes {
+		if strings.HasPrefix(ev, p) {
+			return ev
+		}
+	}
+	c.record("BAD expected one of " + strings.Join(prefixes, "|") + " got " + ev)
+	os.Exit(4)
 	return ""
 }
 
@@ -498,41 +530,60 @@ func runLoopChild(specPath string) {
 		}
 		c.notify(fakeHeader(in.N))
 		c.expect("log receive new ethereum header.", 45*time.Second)
-		c.checkPut()
 		c.record(fmt.Sprintf("H %d", in.N))
-		// no assumption about the confirmation depth: see what the loop does with this header
-		q := c.expectAny(45*time.Second, "getlogs ", "log Ending block index negative")
-		if strings.HasPrefix(q, "log ") {
-			if strings.HasPrefix(in.Out, "c") {
-				c.die(idx)
-			}
-			continue
-		}
-		var lo, hi int64
-		fmt.Sscanf(q, "getlogs %d %d", &lo, &hi)
-		switch in.Out {
-		case "c0":
-			c.die(idx)
-		case "f":
-			c.reply <- "fail"
-			c.record(fmt.Sprintf("Q %d %d 0", lo, hi))
-			c.expect("log failed to get events from bridgebank.", 45*time.Second)
-			continue
-		}
-		c.record(fmt.Sprintf("Q %d %d 1", lo, hi))
 		c.putsIter = 0
-		c.reply <- "ok"
-		// the sentinel header is queued behind this iteration: its log line proves the iteration is over,
-		// however many broadcasts and cursor writes it consists of
+		// the sentinel header is queued right behind: its log line proves that the iteration for header n is
+		// over — whatever path it took (skipped, query failed / retried / unanswered, any number of broadcasts
+		// and cursor writes).  No assumption about the confirmation depth or the shape of an iteration.
 		c.notify(fakeHeader(0))
+		// how the successive log queries for this header are answered
+		plan := []string{"ok"}
+		switch in.Out {
+		case "f":
+			plan = []string{"fail"}
+		case "s":
+			plan = []string{"slow-ok"}
+		case "sf":
+			plan = []string{"slow-fail"}
+		case "fs":
+			plan = []string{"fail", "slow-ok"}
+		}
 		ck, kk := crashK(in.Out)
-		broadcasts := 0
+		broadcasts, queries := 0, 0
 		for over := false; !over; {
-			ev := c.expectAny(245*time.Second, "account", "broadcast ", "log receive new ethereum header.")
+			ev := c.expectAny(245*time.Second, "getlogs ", "account", "broadcast ", "log ")
 			if ck == 'w' && c.putsIter >= kk && !strings.HasPrefix(ev, "log ") {
 				c.die(idx) // right after the k-th cursor write of this iteration, before anything else happens
 			}
 			switch {
+			case strings.HasPrefix(ev, "getlogs "):
+				var lo, hi int64
+				fmt.Sscanf(ev, "getlogs %d %d", &lo, &hi)
+				queries++
+				if in.Out == "c0" && queries == 1 {
+					c.die(idx)
+				}
+				act := "ok"
+				if queries <= len(plan) {
+					act = plan[queries-1]
+				}
+				if strings.HasPrefix(act, "slow-") {
+					// the node accepts the request and answers late (longer than any deadline a loop might set)
+					if c.hold(time.Duration(spec.SlowMs) * time.Millisecond) {
+						// the loop went on without the answer: from its side the query delivered no logs
+						c.record(fmt.Sprintf("Q %d %d 0", lo, hi))
+						c.reply <- "fail"
+						continue
+					}
+					act = strings.TrimPrefix(act, "slow-")
+				}
+				if act == "fail" {
+					c.record(fmt.Sprintf("Q %d %d 0", lo, hi))
+					c.reply <- "fail"
+					continue
+				}
+				c.record(fmt.Sprintf("Q %d %d 1", lo, hi))
+				c.reply <- "ok"
 			case ev == "account":
 				if in.Out == "c1" && broadcasts == 0 {
 					c.die(idx)
@@ -554,10 +605,17 @@ func runLoopChild(specPath string) {
 					c.checkPut()
 					c.die(idx) // after the k-th broadcast, during the loop's sleep, before the next write
 				}
-			default: // the sentinel header: the iteration is over
+			case ev == "log receive new ethereum header.": // the sentinel: the iteration is over
 				c.record("H 0")
 				c.expect("log Ending block index negative", 45*time.Second)
 				over = true
+			case strings.HasPrefix(ev, "log Ending block index negative"):
+				// header n itself was below the depth and skipped
+				if strings.HasPrefix(in.Out, "c") {
+					c.die(idx)
+				}
+			default:
+				// other forwarded log lines (a failed query) carry no information the trace needs
 			}
 		}
 		if in.Out == "c5" || (ck == 'w' && c.putsIter >= kk) {
@@ -583,14 +641,13 @@ func (lc loopCase) modelInputs() []loopInput {
 	var res []loopInput
 	for _, in := range lc.inputs {
 		mo := in.mo()
-		if in.Kind == "h" && in.N >= 50 && (mo == "d" || mo == "c5") {
+		switch {
+		case in.Kind == "h" && mo == "c5":
 			// the sentinel is observed before the crash-after-write is executed: h n done, h0, then idle crash
-			if mo == "c5" {
-				res = append(res, loopInput{Kind: "h", N: in.N, Out: "d"}, loopInput{Kind: "h", N: 0, Out: "d"}, loopInput{Kind: "x"})
-			} else {
-				res = append(res, loopInput{Kind: "h", N: in.N, Out: "d"}, loopInput{Kind: "h", N: 0, Out: "d"})
-			}
-		} else {
+			res = append(res, loopInput{Kind: "h", N: in.N, Out: "d"}, loopInput{Kind: "h", N: 0, Out: "d"}, loopInput{Kind: "x"})
+		case in.Kind == "h" && (mo == "d" || mo == "f"):
+			res = append(res, loopInput{Kind: "h", N: in.N, Out: mo}, loopInput{Kind: "h", N: 0, Out: "d"})
+		default:
 			res = append(res, loopInput{Kind: in.Kind, N: in.N, Out: mo})
 		}
 	}
@@ -621,7 +678,7 @@ func runLoopCase(id int, lc loopCase, workdir string) (string, error) {
 		return "", err
 	}
 	for round := 0; round < 40; round++ {
-		spec := loopSpec{T: 50, DBDir: dbdir, Log: logp, Place: lc.place, Inputs: lc.inputs, Start: start}
+		spec := loopSpec{T: 50, DBDir: dbdir, Log: logp, Place: lc.place, Inputs: lc.inputs, Start: start, SlowMs: 26000}
 		sp := filepath.Join(dir, fmt.Sprintf("spec%d.json", round))
 		b, _ := json.Marshal(spec)
 		if err := os.WriteFile(sp, b, 0o644); err != nil {
@@ -845,8 +902,41 @@ func genBurstLoopCase(r *Rng) loopCase {
 	return lc
 }
 
+// genSlowLoopCase: the node accepts an eth_getLogs request and answers it late — the correct logs ("s"), an error
+// ("sf"), or an error first and the late answer on a retry if the loop retries ("fs") — for a range that holds
+// bridge events.  Short schedules: a held query costs ~26 s of wall time.
+func genSlowLoopCase(r *Rng) loopCase {
+	var lc loopCase
+	if r.Bool() {
+		lc.p0 = int64(60 + r.Intn(80))
+	}
+	head := int64(130 + r.Intn(40))
+	if lc.p0 > 0 {
+		head = lc.p0 + 50 + int64(r.Intn(8))
+	}
+	if r.Intn(3) == 0 {
+		lc.inputs = append(lc.inputs, loopInput{Kind: "h", N: head, Out: "d"})
+		head += int64(2 + r.Intn(6))
+	}
+	e := head - 50
+	lc.place = append(lc.place, [2]int64{1, e - int64(r.Intn(2))})
+	if r.Bool() {
+		lc.place = append([][2]int64{{2, e - 1}}, lc.place...)
+		lc.place[0][0], lc.place[1][0] = 1, 2
+	}
+	lc.inputs = append(lc.inputs, loopInput{Kind: "h", N: head, Out: []string{"s", "s", "s", "sf", "fs"}[r.Intn(5)]})
+	head += int64(1 + r.Intn(3))
+	lc.inputs = append(lc.inputs, loopInput{Kind: "h", N: head, Out: "d"})
+	if r.Intn(3) == 0 {
+		lc.inputs = append(lc.inputs, loopInput{Kind: "x"})
+	}
+	return lc
+}
+
 func genLoopCase(r *Rng) loopCase {
 	switch r.Intn(12) {
+	case 7:
+		return genSlowLoopCase(r)
 	case 0, 1, 2, 3:
 		return genFarLoopCase(r)
 	case 4, 5, 6:
@@ -948,6 +1038,10 @@ func fixCrashPoints(lc *loopCase) {
 		mo := in.Out
 		ck, kk := crashK(in.Out)
 		switch {
+		case in.Out == "s":
+			mo = "d" // a late answer is an answer
+		case in.Out == "sf" || in.Out == "fs":
+			mo = "f"
 		case in.Out == "c1" && !has:
 			mo = "d"
 		case ck == 'b':
@@ -997,6 +1091,12 @@ func init() {
 			cases[0] = loopCase{p0: 0, place: [][2]int64{{1, 70}, {2, 75}, {3, 76}, {4, 90}},
 				inputs: []loopInput{{Kind: "h", N: 120, Out: "d"}, {Kind: "h", N: 126, Out: "c3"}, {Kind: "h", N: 130, Out: "f"}, {Kind: "h", N: 131, Out: "d"}, {Kind: "h", N: 140, Out: "c5"}, {Kind: "h", N: 139, Out: "d"}}}
 			fixCrashPoints(&cases[0])
+		}
+		if n > 3 {
+			// directed: the log query for a range with two bridge events is answered late (correct logs, after 26 s)
+			cases[3] = loopCase{p0: 70, place: [][2]int64{{1, 72}, {2, 80}},
+				inputs: []loopInput{{Kind: "h", N: 130, Out: "s"}, {Kind: "h", N: 132, Out: "d"}, {Kind: "x"}, {Kind: "h", N: 133, Out: "d"}}}
+			fixCrashPoints(&cases[3])
 		}
 		if n > 2 {
 			// directed: 25 events in one range — 18 in blocks 1100..1117, four in block 1200, three in 1300..1302 —
